@@ -1301,3 +1301,34 @@ Proof.
     + cbn [concat]. rewrite <- Eb. symmetry. apply firstn_skipn.
     + constructor; [|exact HF]. apply block_okb_sound. unfold block_okb. rewrite Hc. exact Hv.
 Qed.
+
+(** * validateRegions: what SetRegions accepts never trips the specification-wide guards of launch *)
+
+Theorem validate_regions_ok : forall regs,
+  validate_regions regs = true ->
+  exists r, regs = Some r /\ rg_region r <> [] /\ length (rg_region r) = length (rg_count r) /\
+            NoDup (rg_region r) /\ ~ In 0 (rg_region r).
+Proof.
+  intros [r|] H; [|discriminate]. cbn [validate_regions] in H.
+  rewrite !andb_true_iff in H. destruct H as (((Hne & Hlen) & Hnz) & Hnd).
+  exists r. split; [reflexivity|].
+  apply negb_true_iff, N.eqb_neq in Hne. apply N.eqb_eq in Hlen.
+  apply negb_true_iff, has_dup_NoDup in Hnd.
+  split; [intros E; rewrite E in Hne; apply Hne; reflexivity|].
+  split; [unfold nlen in Hlen; lia|]. split; [exact Hnd|].
+  intros Hin. rewrite forallb_forall in Hnz. specialize (Hnz 0 Hin). discriminate.
+Qed.
+
+Theorem validated_refuse_iff : forall ttl tick fleet shards r ds,
+  validate_regions (Some r) = true -> go_sized shards ->
+  launch ttl tick fleet shards (Some r) ds <> OutOfDraws ->
+  (launch ttl tick fleet shards (Some r) ds = Refused <->
+   exists sd, In sd shards /\ unplaceable ttl tick fleet r sd).
+Proof.
+  intros ttl tick fleet shards r ds Hv Hgs Hout.
+  destruct (validate_regions_ok _ Hv) as (r' & Er & _ & Hlen & Hnd & _). injection Er as <-.
+  rewrite (launch_refuse_iff _ _ _ _ _ _ Hgs Hout). unfold must_refuse. cbn [bad_spec]. split.
+  - intros [[H | H] | (r' & sd & Er & Hin & Hu)]; [exfalso; exact (H Hlen) | exfalso; exact (H Hnd)|].
+    injection Er as <-. exists sd. auto.
+  - intros (sd & Hin & Hu). right. exists r, sd. auto.
+Qed.
